@@ -423,6 +423,16 @@ func oracleC12(f *sessionFam, w *World, res *Result) []Violation {
 		if start > ce.Seq || answeredBefore {
 			continue
 		}
+		if ce.Seq-start < 40 {
+			continue // the poll arrived while the close was already under way: not "pending"
+		}
+		// a batch handed to the transport before the close is this poll's answer: it was not pending any more
+		handedOver := false
+		for _, fe := range w.evs(a, "srv-flush") {
+			if fe.Seq > start && fe.Seq < ce.Seq && transportOf(fe.St) == "polling" {
+				handedOver = true
+			}
+		}
 		// the poll was pending when the session closed
 		sp := f.spec(a)
 		if sp == nil || len(sp.Raw) > 0 {
@@ -446,7 +456,7 @@ func oracleC12(f *sessionFam, w *World, res *Result) []Violation {
 			continue // C16 reports undecodable bodies
 		}
 		last := ps[len(ps)-1]
-		if last.Type != ref.Close && last.Type != ref.Noop {
+		if last.Type != ref.Close && last.Type != ref.Noop && !handedOver {
 			// a data batch that was already on its way is fine as long as the client learns
 			// about the close later; flag only if nothing tells the client
 			l.add("pending-poll-released", "data-only/"+ce.S, fmt.Sprintf("%s: poll #%d pending at close (%s) was released with %d packet(s), the last of type %d, neither close nor noop", a, r.ID, ce.S, len(ps), last.Type))
@@ -482,8 +492,24 @@ func oracleC12(f *sessionFam, w *World, res *Result) []Violation {
 		}
 	}
 	for _, e := range w.evs("", "registry-after-shutdown") {
-		if len(e.P) > 0 || e.N != 0 {
-			l.add("shutdown-empties-table", "", fmt.Sprintf("after shutdown Clients()=%v ClientsCount()=%d", e.P, uint64(e.N)))
+		// sessions that were announced before the shutdown call must be gone; a handshake
+		// racing with (or following) the call is a new session the statement does not cover
+		shutSeq := 0
+		for _, sd := range w.evs("", "app-server-close", "app-http-close") {
+			if shutSeq == 0 {
+				shutSeq = sd.Seq
+			}
+		}
+		var left []string
+		for _, sid := range e.P {
+			for _, ce := range w.Evs {
+				if ce.Kind == "connection" && ce.S == sid && ce.Seq < shutSeq {
+					left = append(left, sid)
+				}
+			}
+		}
+		if len(left) > 0 {
+			l.add("shutdown-empties-table", "", fmt.Sprintf("after shutdown Clients() still holds %v (ClientsCount()=%d)", left, uint64(e.N)))
 		}
 	}
 	return l.out
